@@ -122,9 +122,9 @@ int runEngineT(Json const & plan) {
             }
             if (!found) bad = true;
         }
-        rec += std::string("],\"conflict_off_trail\":") + (bad ? "true" : "false") + "}";
-        logRaw(rec);
         if (highest < 0) highest = trail.size() - 1;
+        rec += std::string("],\"conflict_off_trail\":") + (bad ? "true" : "false") + ",\"after\":" + std::to_string(highest) + "}";
+        logRaw(rec);
         popTo(highest);
     };
 
